@@ -84,7 +84,7 @@ def gen_config(rng, prop, fault_mode):
     else:
         fam = 'Qc' if r < 0.4 else ('Qi' if r < 0.7 else ('Q+' if r < 0.8 else ('S' if r < 0.9 else 'L')))
     if fam == 'L':
-        n = int(rng.choice([1, 2, 3]))
+        n = 1
     cond = float(10.0 ** rng.uniform(0, 3)) if (fam == 'Qc' and rng.random() < 0.6) or prop == 'C19' \
         else float(10.0 ** rng.uniform(0, 8))
     cfg = {'family': fam, 'n': n, 'cond': cond, 'cseed': int(rng.integers(0, 2**31)),
@@ -101,7 +101,8 @@ def gen_config(rng, prop, fault_mode):
     if fam in ('Qi', 'S', 'L') and cfg['nneg'] > 0:
         cfg['qscale'] = max(cfg['qscale'], 1e-2)     # quartic keeps the objective bounded below
     if fam == 'L':
-        cfg['nneg'], cfg['quartic'] = 0, False
+        cfg.update(nneg=0, quartic=False, cond=1.0, sigscale=float(10.0 ** rng.uniform(-1.5, 0)),
+                   ascale=float(10.0 ** rng.uniform(-0.3, 0.7)), wscale=1.0, nonlinear_p=False)
     if fault_mode and rng.random() < 0.3:
         a = rng.normal(size=n)
         a /= np.linalg.norm(a)
@@ -155,6 +156,9 @@ def gen_program(rng, prop, tier, run_index):
                         **({'cgmax': int(rng.integers(1, 4))} if fault_mode and rng.random() < 0.2 else {})})
         else:
             ops.append({'op': 'restart', 'fresh': bool(rng.random() < 0.15)})
+    if cfg['family'] == 'L':
+        ops[0] = {'op': 'solve', 'driver': 'trm', 'warm': False, 'upd': True, 'dp': {},
+                  'settings': {'tr_size': 1e3, 'tol': float(10.0 ** rng.uniform(-8, -5))}}
     if fault_mode and prop == 'C01' and cfg['family'] == 'Qc' and cfg['cond'] <= 1e3 and not cfg.get('barrier'):
         ops.append({'op': 'solve', 'driver': 'nes', 'warm': False, 'upd': True, 'dp': {}, 'settings': {},
                     'liveness': True})
@@ -317,39 +321,54 @@ class App:
         return x
 
     def landing_start(self, x0):
-        """Solve for a start whose full Newton step lands on a stationary non-minimiser:
-        pick a stationary point xs with an indefinite/negative Hessian by root finding on grad,
-        then step back along an eigen-direction so that Newton from x0 returns to about xs."""
+        """n = 1.  Find a start in a convex region (f'' > 0) whose full Newton step lands, to
+        machine precision, on a strict local maximiser xs (f'(xs) = 0, f''(xs) < 0): the
+        alignment that makes the solver's convergence test fire at an uphill trial point."""
         ev, p = self.ev, self.pnp
-        best = x0
-        rng = np.random.Generator(np.random.PCG64(int(self.cfg['x0seed']) + 1))
-        for _ in range(30):
-            x = rng.normal(size=self.n) * 2
-            for _ in range(60):
-                g, H = ev.grad(x, p), ev.hess(x, p)
-                try:
-                    x = x - np.linalg.solve(H, g)
-                except np.linalg.LinAlgError:
-                    break
-                if not np.all(np.isfinite(x)):
-                    break
-            else:
-                if np.all(np.isfinite(x)) and np.linalg.norm(ev.grad(x, p)) < 1e-9:
-                    w = np.linalg.eigvalsh(ev.hess(x, p))
-                    if w[0] < -1e-3:
-                        d = rng.normal(size=self.n)
-                        d /= np.linalg.norm(d)
-                        cand = x + 0.05 * d
-                        # one Newton step from cand should come back to ~x
-                        g, H = ev.grad(cand, p), ev.hess(cand, p)
-                        try:
-                            back = cand - np.linalg.solve(H, g)
-                        except np.linalg.LinAlgError:
-                            continue
-                        if np.linalg.norm(back - x) < 1e-2:
-                            self.ctx.probe('L:landing_start_built')
-                            return cand
-        return best
+        if self.n != 1:
+            return x0
+        g = lambda t: float(ev.grad(np.array([t]), p)[0])
+        h = lambda t: float(ev.hess(np.array([t]), p)[0, 0])
+        grid = np.linspace(-8.0, 8.0, 3201)
+        gv = np.array([g(t) for t in grid])
+        hv = np.array([h(t) for t in grid])
+        maxima = []
+        for i in range(len(grid) - 1):
+            if gv[i] > 0 >= gv[i + 1] and hv[i] < 0 and hv[i + 1] < 0:
+                a, b = grid[i], grid[i + 1]
+                for _ in range(200):
+                    m = 0.5 * (a + b)
+                    if g(m) > 0:
+                        a = m
+                    else:
+                        b = m
+                xs = 0.5 * (a + b)
+                if h(xs) < -1e-3:
+                    maxima.append(xs)
+        if not maxima:
+            return x0
+        rs = np.random.Generator(np.random.PCG64(int(self.cfg['x0seed']) + 1))
+        cands = []
+        for xs in maxima:
+            N = lambda t: t - g(t) / h(t) - xs
+            for i in range(len(grid) - 1):
+                if hv[i] > 1e-3 and hv[i + 1] > 1e-3:
+                    fa, fb = N(grid[i]), N(grid[i + 1])
+                    if np.isfinite(fa) and np.isfinite(fb) and fa * fb < 0:
+                        a, b = grid[i], grid[i + 1]
+                        for _ in range(200):
+                            m = 0.5 * (a + b)
+                            if N(m) * fa > 0:
+                                a = m
+                            else:
+                                b = m
+                        t = 0.5 * (a + b)
+                        if h(t) > 1e-3 and abs(N(t)) < 1e-9:
+                            cands.append(t)
+        if not cands:
+            return x0
+        self.ctx.probe('L:landing_start_built')
+        return np.array([cands[int(rs.integers(0, len(cands)))]])
 
     # -- objects --------------------------------------------------------------------
     def strategy(self):
@@ -518,6 +537,10 @@ class App:
         self.plan.masks = list(op.get('chol', []))
         self.cgseam.calls = []
         self.cgseam.force_maxiter = op.get('cgmax') if warm else None
+        if any(k.startswith('max_') for k in (op.get('settings') or {})):
+            ctx.fault('cap')
+        if op.get('upd') is False and self.have_precond:
+            ctx.fault('stale_precond')
         trace = []
         starts = []
 
